@@ -122,7 +122,7 @@ def render(model, order=None):
         secs.append(('plugin', lines))
     envs = []
     for e in model["env_sections"]:
-        lines = ["[env:%s]" % ','.join(e["patterns"])]
+        lines = ["[env:%s]" % e.get("sep", ',').join(e["patterns"])]
         for kk, vv in e["items"]:
             lines.append("%s = %s" % (kk, vv))
         envs.append(('envsec', lines))
@@ -435,7 +435,11 @@ def _strategy():
                          unique=True))]
             if any(e["patterns"] == pats for e in envsecs):
                 continue       # the same header twice is one ini section
-            envsecs.append({"patterns": pats, "items": items})
+            sec = {"patterns": pats, "items": items}
+            if len(pats) > 1 and draw(st.booleans()):
+                # blanks around the commas of a name list are not significant
+                sec["sep"] = draw(st.sampled_from([', ', ' ,', ' , ']))
+            envsecs.append(sec)
 
         def defined_for(name):
             d = dict(daemon_env)
